@@ -138,6 +138,8 @@ def parse_cbmc(logpath):
             verdict = 'SUCCESSFUL'
         elif line.startswith('VERIFICATION FAILED'):
             verdict = 'FAILED'
+        elif line.startswith('VERIFICATION ERROR'):
+            verdict = None
         elif 'ignoring' in line and ('forall' in line or 'exists' in line or 'quantif' in line):
             ignoring = True
         m2 = re.match(r'^Runtime (?:Solver|decision procedure): ([0-9.]+)s', line)
@@ -227,11 +229,22 @@ def build_and_check(ob, tierdir):
         cmd += ['--object-bits', str(ob.object_bits)]
     r['cbmc_cmd'] = ' '.join(cmd)
     rc, dt, st = run_cmd(cmd, d, ob.timeout, ob.mem, os.path.join(d, 'cbmc.log'))
+    props, verdict, ignoring, solver_s = parse_cbmc(os.path.join(d, 'cbmc.log')) if st == 'ok' else ([], None, False, 0)
+    if st == 'ok' and (verdict is None or any(p[2] == 'ERROR' for p in props)) and '--sat-solver' in cmd:
+        # the in-process CaDiCaL of cbmc 6.11 sometimes aborts on the second solver iteration ("VERIFICATION ERROR" /
+        # no verdict, rc 6 or 10); the same query goes through with the external kissat - retry once
+        k = cmd.index('--sat-solver')
+        cmd = cmd[:k] + cmd[k + 2:] + ['--external-sat-solver', 'kissat']
+        r['cbmc_cmd'] = ' '.join(cmd)
+        r['solver_retry'] = 'cadical aborted, retried with kissat'
+        shutil.copy(os.path.join(d, 'cbmc.log'), os.path.join(d, 'cbmc.cadical.log'))
+        rc, dt, st = run_cmd(cmd, d, ob.timeout, ob.mem, os.path.join(d, 'cbmc.log'))
+        if st == 'ok':
+            props, verdict, ignoring, solver_s = parse_cbmc(os.path.join(d, 'cbmc.log'))
     r['wall_s'] = time.time() - t0
     if st != 'ok':
         r['reason'] = 'cbmc %s after %.0fs (limit %ss, %sGB)' % (st, dt, ob.timeout, ob.mem)
         return r
-    props, verdict, ignoring, solver_s = parse_cbmc(os.path.join(d, 'cbmc.log'))
     r['solver_s'] = solver_s
     if verdict is None:
         r['reason'] = 'cbmc ended without verdict (rc=%s) see %s/cbmc.log' % (rc, d)
